@@ -3,6 +3,7 @@ from engine.facts import CannotDecide, callee_is, path_matches, strip_generics, 
 from engine.prov import const_int
 from .common import norm_path, in_module, MINLIKE
 
+EXTRA_CONFIGS = ('default', 'tokio1', 'serde1', 'serde-transport')   # feature configurations re-analysed in the thorough tier
 META = {
     'level': 'other',
     'technique': 'static taint rule over MIR: peer- or caller-chosen values (decoded messages, transport items, call contexts) must pass a sanitiser (min/clamp/checked_/saturating_) before '
